@@ -31,6 +31,31 @@ func runNumDigits(b *big.Int) (line string) {
 	return fmt.Sprintf("%s => %d", cs, n)
 }
 
+// NumDigits of 10^k + delta with k in the thousands: the expected count is known without the model
+// evaluating a number of that size ("ndp k delta sign => n")
+func runNumDigitsPow10(k, delta int, neg bool) (line string) {
+	sg := 0
+	if neg {
+		sg = 1
+	}
+	cs := fmt.Sprintf("ndp %d %d %d", k, delta, sg)
+	enter(cs)
+	defer leave()
+	defer func() {
+		if r := recover(); r != nil {
+			line = fmt.Sprintf("%s => PANIC %q", cs, fmt.Sprint(r))
+		}
+	}()
+	v := pow10(k)
+	v.Add(v, big.NewInt(int64(delta)))
+	if neg {
+		v.Neg(v)
+	}
+	var z apd.BigInt
+	z.SetMathBigInt(v)
+	return fmt.Sprintf("%s => %d", cs, apd.NumDigits(&z))
+}
+
 // ---------- Decimal.Reduce stream "dr": dr <x> <dpre> <alias> ----------
 
 func runDecReduce(x0, dpre *apd.Decimal, alias string) (line string) {
@@ -76,6 +101,29 @@ func init() {
 				if mine() {
 					emit(runNumDigits(v))
 					emit(runNumDigits(new(big.Int).Neg(v)))
+				}
+			}
+		}
+		// powers of ten and their neighbours far beyond the table: every k up to 130, then sampled up to
+		// 30000 digits (the float estimate of the slow path is exercised at every size)
+		for k := 46; k <= 130; k++ {
+			for _, delta := range []int{-1, 0, 1} {
+				if mine() {
+					emit(runNumDigitsPow10(k, delta, k%2 == 0))
+				}
+			}
+		}
+		// every k: the value just below each digit boundary (and the boundary itself) at every bit length up
+		// to about 20000 bits in the quick tier, 100000 bits in the thorough tier (n tells the tier)
+		kmax := 6000
+		if n > 1000 {
+			kmax = 30000
+		}
+		for k := 131; k <= kmax; k++ {
+			if mine() {
+				emit(runNumDigitsPow10(k, -1, k%3 == 0))
+				if k%4 == 0 {
+					emit(runNumDigitsPow10(k, k%3-1, k%5 == 0))
 				}
 			}
 		}
